@@ -8,7 +8,7 @@ From BS Require Import Model.Base Model.Regex Model.Num Model.ExprParser Model.S
   Proofs.ExprFuel Proofs.C10wsFull Proofs.RegexShiftG Proofs.C10wsIndent2 Proofs.C10wsReturn
   Proofs.C10tokLex Proofs.C10tokSpaced Proofs.RegexTrail Proofs.C10tokTrail Proofs.RegexTrail2
   Proofs.RegexTrail3 Proofs.C10stmtTrail Proofs.C10parseNoeq Proofs.C10classifyTrail Proofs.C10stmtGaps Proofs.C10stmtGaps2 Proofs.C10stmtGaps3
-  Proofs.C10stmtGaps4 Proofs.C10stmtGaps5 Proofs.C10stmtGaps6.
+  Proofs.C10stmtGaps4 Proofs.C10stmtGaps5 Proofs.C10stmtGaps6 Proofs.C02str Proofs.C10stmtGaps7.
 
 (* ---- LF versus CRLF: both texts have the same lines ---- *)
 Theorem C10_crlf : forall lines, lines <> [] -> Forall no_lf lines -> Forall (fun l => ends_cr l = false) lines ->
@@ -351,8 +351,8 @@ Qed.
 (* ---- INNER gaps of a statement line (round 6, Proofs/C10stmtGaps.v, C10stmtGaps2.v, C10stmtGaps3.v): the white runs at the
    places where the statement regex has `\s*` / `\s+`.  PARTIAL: the kinds assignment, if, elif, while, return <expr>, jump,
    jumpif, include <url> (plus, from before, `else :` C10_ws_else_gap and the keyword-only lines), and — round 7, below:
-   C10_ws_label_pieces, C10_ws_for_pieces, C10_ws_for_index_pieces, relation stmt_spaced3 — label and for.  NOT covered: function
-   begin, include 'url' (oracle only).  For the first eight kinds the classification is computed from the PIECES of the line, for ALL white runs:
+   C10_ws_label_pieces, C10_ws_for_pieces, C10_ws_for_index_pieces, relation stmt_spaced3 — label and for, and
+   C10_ws_include_quoted_pieces — include 'url'.  NOT covered: function begin (oracle only).  For the first eight kinds the classification is computed from the PIECES of the line, for ALL white runs:
      w1 name w2 = T        ->  KAssign name e           w1 if w2 T : w4            ->  KIf e
      w1 elif w2 T : w4     ->  KElif (ROk e)            w1 while w2 T : w4         ->  KWhile e
      w1 return w2 T        ->  KReturn (Some e)         w1 jump w2 name w4         ->  KJump name None
@@ -501,6 +501,29 @@ Example C10_ex_ws_label_keywords :
   (exists e, Lower.classify 1 (U "if  :") = RErr e).
 Proof. exact label_kw_examples. Qed.
 
+(* ---- round 7 (Proofs/C10stmtGaps7.v): the quoted include  w1 include w2 'body' w4  ->  KInclude (un-escaped body) false,
+   for all white runs (w2 non-empty) and every body whose quotes are all escaped (quotes_escaped: the greedy reading
+   `\'` | [^'] of the body never meets a bare quote).  The group is a backtracking star over an alternation: when the body
+   ends with a backslash (`include 'a\'`) the greedy reading first takes that backslash WITH the closing quote as the pair
+   `\'`, runs to the end of the line, fails, and only the second alternative (the backslash as an ordinary character) lets
+   the tail `'\s*$` succeed at the closing quote — group 2 is the body in both cases.  The un-escape pass is the direct
+   function unescape_direct 39 of Proofs/C02str.v (C02_string_unescape). ---- *)
+Theorem C10_ws_include_quoted_pieces : forall n w1 w2 body w4, white w1 -> white w2 -> w2 <> [] -> white w4 ->
+  quotes_escaped body = true ->
+  Lower.classify n (w1 ++ U "include" ++ w2 ++ U "'" ++ body ++ U "'" ++ w4) = ROk (KInclude (unescape_direct 39 body) false).
+Proof. exact classify_include_quoted_direct. Qed.
+Print Assumptions C10_ws_include_quoted_pieces.
+
+Example C10_ex_ws_include_quoted :
+  quotes_escaped (U "a b.bare") = true /\ quotes_escaped (U "it\00005c's") = true /\ quotes_escaped (U "a\00005c") = true /\
+  quotes_escaped (U "it's") = false /\
+  unesc Gen.Regexes.R_EXPR_STRING_ESCAPE (U "it\00005c's") = ROk (U "it's") /\ unesc Gen.Regexes.R_EXPR_STRING_ESCAPE (U "a\00005c") = ROk (U "a\00005c") /\
+  Lower.classify 2 (U "include 'it\00005c's'") = ROk (KInclude (U "it's") false) /\
+  Lower.classify 2 (U "  include \000009 'it\00005c's'  ") = ROk (KInclude (U "it's") false) /\
+  Lower.classify 2 (U "include 'a\00005c'") = ROk (KInclude (U "a\00005c") false) /\
+  Lower.classify 2 (U " include  'a\00005c' ") = ROk (KInclude (U "a\00005c") false).
+Proof. exact include_quoted_examples. Qed.
+
 Theorem C10_expression_never_starts_eq : forall t e, parse_expression (U "=" ++ t) <> EOk e.
 Proof. exact parse_hd_noeq. Qed.
 Print Assumptions C10_expression_never_starts_eq.
@@ -556,13 +579,13 @@ Qed.
      assignment, if, elif, while, return <expr>, jump, jumpif: C10_ws_statement_gaps_partial (relation stmt_spaced2) and the
      per-kind C10_ws_*_pieces; include <url>: C10_ws_include_system_pieces; round 7: label (`name :`, name not one of
      if elif else while) and for (`for v in e :`, `for v , i in e :`): C10_ws_label_pieces, C10_ws_for_pieces,
-     C10_ws_for_index_pieces, C10_ws_statement_gaps3_partial (relation stmt_spaced3); from before: the keyword-only statements and the bare `return` with any indentation and
+     C10_ws_for_index_pieces, C10_ws_statement_gaps3_partial (relation stmt_spaced3); include 'url' (every quote of the url
+     escaped): C10_ws_include_quoted_pieces; from before: the keyword-only statements and the bare `return` with any indentation and
      trailing whitespace (C10_ws_keyword_lines, C10_ws_return_bare) and `else :` (C10_ws_else_gap).
    NOT proved (oracle only):
-   * the INNER gaps of function begin (`async`, `function`, name, `(`, the argument list with its commas, `...`, `)`, `:`)
-     and include '...' (quoted form): their indentation and trailing run ARE covered (C10_ws_padding), the gaps between
-     their pieces are not.  What is missing is one direct reading per regex (as in Proofs/C10stmtGaps.v): function begin
-     has a star over a group, include a backtracking star over an alternation;
+   * the INNER gaps of function begin (`async`, `function`, name, `(`, the argument list with its commas, `...`, `)`, `:`):
+     its indentation and trailing run ARE covered (C10_ws_padding), the gaps between its pieces are not.  What is missing
+     is a direct reading of its regex (as in Proofs/C10stmtGaps.v): two optional groups and a star over a group;
    * C10_ws_statement_gaps_partial has the premise "the expression text parses" (it yields that BOTH layouts classify as
      the same kind) rather than "the first layout classifies successfully"; rejected lines are not related (their error
      record quotes the line, so it differs by construction; that the message and the column relative to the first token
